@@ -795,6 +795,12 @@ def _job(args):
 
 def replay_all(ck, kind: str, exported, variants_for, procs: int = 8) -> int:
     from harness import core
+    # load the library in the parent, so that the forked workers do not each import (and, in a fresh worktree
+    # without byte-code cache, compile) its ~230 modules
+    import reactivex  # noqa: F401
+    import reactivex.operators  # noqa: F401
+    import reactivex.scheduler  # noqa: F401
+    import reactivex.testing  # noqa: F401
     jobs = []
     for label, c, groups in exported:
         extra = {"H": c["H"], "NVals": c.get("NVals", 0), "NKeys": c.get("NKeys", 0)}
